@@ -119,6 +119,11 @@ func membersSyncTopic(members []uint16) []byte {
 	return sha(b)
 }
 
+var errAbortHistory = fmt.Errorf("abort history")
+
+// orchStop: a call hung; the remaining histories would only hang too
+var orchStop bool
+
 func runOrch(r *prng.R, s *out.Sink, tier string) {
 	histories := 60
 	if tier == "thorough" {
@@ -126,224 +131,274 @@ func runOrch(r *prng.R, s *out.Sink, tier string) {
 	}
 	members := []uint16{1, 2, 3}
 	orchDerivedTopicPair(s, members)
-	for h := 0; h < histories; h++ {
-		rg := &orchRig{}
-		rg.schemeRig = newSchemeRig(1, 2, identityMembership(members), nil, false)
-		rg.scheme.SyncFactory = func(m []uint16, _ func([]byte), _ func([]byte, uint16)) tss.Synchronizer {
-			return &gatedSync{rig: rg, members: members}
-		}
-		rg.scheme.SetStoredData([]byte("stored"))
-		kn := &keyNames{m: map[string]int{}}
-		used := map[*syncGate]bool{}
-		var hist []string
-		emit := func(kind, op, ans string) {
-			s.Op(kind, true, op, ans)
-			hist = append(hist, op+"   => "+ans)
-		}
-		emit("new", "orch new", "ok")
-		sid := 0
-		// quiet: an action whose effect is only observable together with the next one (the real code does not stop in between)
-		quiet := func(name string, id int, key []byte) {
-			emit("act/"+name, fmt.Sprintf("orch quiet %s %d %d", name, id, kn.id(key)), "ok")
-		}
-		act := func(name string, id int, key []byte, admitted bool) {
-			a := "refused"
-			if admitted {
-				a = "admitted"
-			}
-			emit("act/"+name, fmt.Sprintf("orch act %s %d %d", name, id, kn.id(key)), a+" "+rg.snapshot(kn))
-		}
-		calls := 3 + r.Intn(5)
-		for c := 0; c < calls; c++ {
-			sid++
-			id := sid
-			if r.Intn(4) == 0 {
-				// ---------------- KeyGen ---------------------------------------------------------------
-				kd := sha([]byte("DKG"))
-				km := membersSyncTopic(members)
-				ctx, cancel := context.WithCancel(context.Background())
-				done := make(chan error, 1)
-				go func() { _, err := rg.scheme.KeyGen(ctx, 3, 2); done <- err }()
-				g1 := rg.waitGate(kd, used)
-				if g1 == nil {
-					s.Violate("C12", "KeyGen neither refused nor reached its synchronisation", strings.Join(hist, "\n"))
-					cancel()
-					continue
+	for h := 0; h < histories && !orchStop; h++ {
+		func() {
+			defer func() {
+				if e := recover(); e != nil && e != errAbortHistory {
+					panic(e)
 				}
-				act("dkgEnter", id, kd, true)
-				path := r.Intn(5)
-				s.Count(fmt.Sprintf("keygen/path-%d", path))
-				switch path {
-				case 0: // first synchronisation fails
-					g1.release <- false
-					<-done
-					act("dkgExit", id, kd, true)
-				case 1: // caller gives up while synchronising; the callback passes afterwards (late)
-					cancel()
-					<-done
-					act("dkgExit", id, kd, true)
-					g1.release <- true
-					<-g1.done
-					act("dkgRegRbc", id, kd, true)
-				default:
-					g1.release <- true
-					g2 := rg.waitGate(km, used)
-					if g2 == nil {
-						s.Violate("C12", "KeyGen callback did not reach the member-list synchronisation", strings.Join(hist, "\n"))
+			}()
+			rg := &orchRig{}
+			rg.schemeRig = newSchemeRig(1, 2, identityMembership(members), nil, false)
+			rg.scheme.SyncFactory = func(m []uint16, _ func([]byte), _ func([]byte, uint16)) tss.Synchronizer {
+				return &gatedSync{rig: rg, members: members}
+			}
+			rg.scheme.SetStoredData([]byte("stored"))
+			kn := &keyNames{m: map[string]int{}}
+			used := map[*syncGate]bool{}
+			var hist []string
+			emit := func(kind, op, ans string) {
+				s.Op(kind, true, op, ans)
+				hist = append(hist, op+"   => "+ans)
+			}
+			emit("new", "orch new", "ok")
+			sid := 0
+			// quiet: an action whose effect is only observable together with the next one (the real code does not stop in between)
+			quiet := func(name string, id int, key []byte) {
+				emit("act/"+name, fmt.Sprintf("orch quiet %s %d %d", name, id, kn.id(key)), "ok")
+			}
+			act := func(name string, id int, key []byte, admitted bool) {
+				a := "refused"
+				if admitted {
+					a = "admitted"
+				}
+				emit("act/"+name, fmt.Sprintf("orch act %s %d %d", name, id, kn.id(key)), a+" "+rg.snapshot(kn))
+			}
+			// a call that does not come back is a C11 violation with the history as replay; the history ends there
+			await := func(ch chan error) error {
+				select {
+				case err := <-ch:
+					return err
+				case <-time.After(20 * time.Second):
+					s.Violate("C11", "a KeyGen/Sign call did not return within 20 s of the event that ends its session (context cancelled, synchronisation failed or backend finished)", strings.Join(hist, "\n"))
+					orchStop = true
+					panic(errAbortHistory)
+				}
+			}
+			awaitCB := func(ch chan struct{}) {
+				select {
+				case <-ch:
+				case <-time.After(20 * time.Second):
+					s.Violate("C11", "a synchronisation callback did not return within 20 s", strings.Join(hist, "\n"))
+					panic(errAbortHistory)
+				}
+			}
+			calls := 3 + r.Intn(5)
+			aborted := false
+			for c := 0; c < calls; c++ {
+				sid++
+				id := sid
+				if r.Intn(4) == 0 {
+					// ---------------- KeyGen ---------------------------------------------------------------
+					kd := sha([]byte("DKG"))
+					km := membersSyncTopic(members)
+					ctx, cancel := context.WithCancel(context.Background())
+					done := make(chan error, 1)
+					go func() { _, err := rg.scheme.KeyGen(ctx, 3, 2); done <- err }()
+					g1 := rg.waitGate(kd, used)
+					if g1 == nil {
+						s.Violate("C12", "KeyGen neither refused nor reached its synchronisation", strings.Join(hist, "\n"))
 						cancel()
 						continue
 					}
-					quiet("dkgRegRbc", id, kd)
-					act("dkgRegSync", id, km, true)
-					switch path {
-					case 2: // caller gives up during the second synchronisation (the callback sees the cancellation too and unregisters)
-						cancel()
-						<-done
-						g2.release <- false
-						<-g1.done
-						quiet("dkgExit", id, kd)
-						act("dkgUnregSync", id, km, true)
-					case 3: // backend fails
-						g2.release <- true
-						b, _, _ := waitBackend(func() *scriptedBackend { rg.schemeRig.mu.Lock(); defer rg.schemeRig.mu.Unlock(); return rg.kg }, done)
-						b.release <- fmt.Errorf("scripted backend failure")
-						<-done
-						<-g1.done
-						quiet("dkgExit", id, kd)
-						act("dkgUnregSync", id, km, true)
-					default: // success
-						g2.release <- true
-						b, _, _ := waitBackend(func() *scriptedBackend { rg.schemeRig.mu.Lock(); defer rg.schemeRig.mu.Unlock(); return rg.kg }, done)
-						b.release <- nil
-						if err := <-done; err != nil {
-							s.Violate("C12", "KeyGen failed on the success path: "+err.Error(), strings.Join(hist, "\n"))
+					act("dkgEnter", id, kd, true)
+					// further concurrent KeyGens must each be refused and change nothing (also not each other's refusal)
+					bad := false
+					for extra := r.Intn(3); extra > 0 && !bad; extra-- {
+						sid++
+						var err error
+						c2, cancel2 := context.WithTimeout(context.Background(), 2*time.Second)
+						if safely(func() string { _, err = rg.scheme.KeyGen(c2, 3, 2); return "" }) == "panic" {
+							s.Violate("C12", "a concurrent KeyGen was admitted while one is running, and panicked", strings.Join(hist, "\n"))
+							bad = true
+						} else if err == nil || !strings.Contains(err.Error(), "already running") {
+							s.Violate("C12", fmt.Sprintf("a concurrent KeyGen was not refused while one is running (err=%v)", err), strings.Join(hist, "\n"))
+							bad = true
 						}
-						<-g1.done
-						quiet("dkgExit", id, kd)
-						act("dkgUnregSync", id, km, true)
+						cancel2()
+						act("dkgEnter", sid, kd, false)
 					}
-				}
-				cancel()
-				continue
-			}
-			// ---------------- Sign ---------------------------------------------------------------------
-			topic := fmt.Sprintf("topic-%d", r.Intn(3))
-			k1 := sha([]byte(topic))
-			k2 := sha(k1)
-			ctx, cancel := context.WithCancel(context.Background())
-			done := make(chan error, 1)
-			go func() { _, err := rg.scheme.Sign(ctx, sha([]byte("digest")), topic); done <- err }()
-			g1 := rg.waitGate(k1, used)
-			if g1 == nil {
-				s.Violate("C12", "Sign on a topic without a live session was refused or did not reach its synchronisation (residue of an earlier session?)", strings.Join(hist, "\n"))
-				cancel()
-				continue
-			}
-			act("signEnter", id, k1, true)
-			// a second concurrent Sign on the same topic must be refused and change nothing
-			if r.Intn(3) == 0 {
-				sid++
-				_, err := rg.scheme.Sign(context.Background(), sha([]byte("digest")), topic)
-				if err == nil || !strings.Contains(err.Error(), "already signing") {
-					s.Violate("C12", fmt.Sprintf("a second concurrent Sign on the same topic was not refused (err=%v)", err), strings.Join(hist, "\n"))
-				}
-				act("signEnter", sid, k1, false)
-			}
-			path := r.Intn(7)
-			s.Count(fmt.Sprintf("sign/path-%d", path))
-			signer := func() *scriptedBackend { rg.schemeRig.mu.Lock(); defer rg.schemeRig.mu.Unlock(); return rg.signer }
-			switch path {
-			case 0: // first synchronisation fails
-				g1.release <- false
-				<-done
-				act("signExit", id, k1, true)
-			case 1: // caller gives up while synchronising; the callback passes afterwards (late)
-				cancel()
-				<-done
-				act("signExit", id, k1, true)
-				g1.release <- true
-				<-g1.done
-				act("signPrepare", id, k1, true)
-			case 2: // stored share data unusable: preparation fails
-				rg.schemeRig.mu.Lock()
-				rg.failShareData = true
-				rg.schemeRig.mu.Unlock()
-				g1.release <- true
-				err := <-done
-				<-g1.done
-				rg.schemeRig.mu.Lock()
-				rg.failShareData = false
-				rg.schemeRig.mu.Unlock()
-				if err == nil || strings.Contains(err.Error(), "context") {
-					s.Violate("C11", fmt.Sprintf("Sign with unusable share data did not return the preparation error (err=%v)", err), strings.Join(hist, "\n"))
-				}
-				act("signExit", id, k1, true)
-			default:
-				g1.release <- true
-				g2 := rg.waitGate(k2, used)
-				if g2 == nil {
-					s.Violate("C12", "Sign callback did not reach the second synchronisation", strings.Join(hist, "\n"))
+					if bad { // the tables are no longer those of the history: end it here
+						cancel()
+						g1.release <- false
+						await(done)
+						aborted = true
+						break
+					}
+					path := r.Intn(5)
+					s.Count(fmt.Sprintf("keygen/path-%d", path))
+					switch path {
+					case 0: // first synchronisation fails
+						g1.release <- false
+						await(done)
+						act("dkgExit", id, kd, true)
+					case 1: // caller gives up while synchronising; the callback passes afterwards (late)
+						cancel()
+						await(done)
+						act("dkgExit", id, kd, true)
+						g1.release <- true
+						awaitCB(g1.done)
+						act("dkgRegRbc", id, kd, true)
+					default:
+						g1.release <- true
+						g2 := rg.waitGate(km, used)
+						if g2 == nil {
+							s.Violate("C12", "KeyGen callback did not reach the member-list synchronisation", strings.Join(hist, "\n"))
+							cancel()
+							continue
+						}
+						quiet("dkgRegRbc", id, kd)
+						act("dkgRegSync", id, km, true)
+						switch path {
+						case 2: // caller gives up during the second synchronisation (the callback sees the cancellation too and unregisters)
+							cancel()
+							await(done)
+							g2.release <- false
+							awaitCB(g1.done)
+							quiet("dkgExit", id, kd)
+							act("dkgUnregSync", id, km, true)
+						case 3: // backend fails
+							g2.release <- true
+							b, _, _ := waitBackend(func() *scriptedBackend { rg.schemeRig.mu.Lock(); defer rg.schemeRig.mu.Unlock(); return rg.kg }, done)
+							b.release <- fmt.Errorf("scripted backend failure")
+							await(done)
+							awaitCB(g1.done)
+							quiet("dkgExit", id, kd)
+							act("dkgUnregSync", id, km, true)
+						default: // success
+							g2.release <- true
+							b, _, _ := waitBackend(func() *scriptedBackend { rg.schemeRig.mu.Lock(); defer rg.schemeRig.mu.Unlock(); return rg.kg }, done)
+							b.release <- nil
+							if err := await(done); err != nil {
+								s.Violate("C12", "KeyGen failed on the success path: "+err.Error(), strings.Join(hist, "\n"))
+							}
+							awaitCB(g1.done)
+							quiet("dkgExit", id, kd)
+							act("dkgUnregSync", id, km, true)
+						}
+					}
 					cancel()
 					continue
 				}
-				quiet("signPrepare", id, k1)
-				act("regSync2", id, k2, true)
+				// ---------------- Sign ---------------------------------------------------------------------
+				topic := fmt.Sprintf("topic-%d", r.Intn(3))
+				k1 := sha([]byte(topic))
+				k2 := sha(k1)
+				ctx, cancel := context.WithCancel(context.Background())
+				done := make(chan error, 1)
+				go func() { _, err := rg.scheme.Sign(ctx, sha([]byte("digest")), topic); done <- err }()
+				g1 := rg.waitGate(k1, used)
+				if g1 == nil {
+					s.Violate("C12", "Sign on a topic without a live session was refused or did not reach its synchronisation (residue of an earlier session?)", strings.Join(hist, "\n"))
+					cancel()
+					continue
+				}
+				act("signEnter", id, k1, true)
+				// a second concurrent Sign on the same topic must be refused and change nothing
+				if r.Intn(3) == 0 {
+					sid++
+					_, err := rg.scheme.Sign(context.Background(), sha([]byte("digest")), topic)
+					if err == nil || !strings.Contains(err.Error(), "already signing") {
+						s.Violate("C12", fmt.Sprintf("a second concurrent Sign on the same topic was not refused (err=%v)", err), strings.Join(hist, "\n"))
+					}
+					act("signEnter", sid, k1, false)
+				}
+				path := r.Intn(7)
+				s.Count(fmt.Sprintf("sign/path-%d", path))
+				signer := func() *scriptedBackend { rg.schemeRig.mu.Lock(); defer rg.schemeRig.mu.Unlock(); return rg.signer }
 				switch path {
-				case 3: // caller gives up during the second synchronisation, which then fails
-					cancel()
-					<-done
+				case 0: // first synchronisation fails
+					g1.release <- false
+					await(done)
 					act("signExit", id, k1, true)
-					g2.release <- false
-					<-g1.done
-					act("unregSync2", id, k2, true)
-				case 4: // caller gives up; the second synchronisation passes late
+				case 1: // caller gives up while synchronising; the callback passes afterwards (late)
 					cancel()
-					<-done
+					await(done)
 					act("signExit", id, k1, true)
-					g2.release <- true
-					<-g1.done
-					act("unregSync2", id, k2, true)
-				case 5: // backend fails
-					g2.release <- true
-					b, _, _ := waitBackend(signer, done)
-					b.release <- fmt.Errorf("scripted backend failure")
-					<-done
-					<-g1.done
-					quiet("signExit", id, k1)
-					act("unregSync2", id, k2, true)
-				default: // success
-					g2.release <- true
-					b, _, _ := waitBackend(signer, done)
-					b.release <- nil
-					if err := <-done; err != nil {
-						s.Violate("C12", "Sign failed on the success path: "+err.Error(), strings.Join(hist, "\n"))
+					g1.release <- true
+					awaitCB(g1.done)
+					act("signPrepare", id, k1, true)
+				case 2: // stored share data unusable: preparation fails
+					rg.schemeRig.mu.Lock()
+					rg.failShareData = true
+					rg.schemeRig.mu.Unlock()
+					g1.release <- true
+					err := await(done)
+					awaitCB(g1.done)
+					rg.schemeRig.mu.Lock()
+					rg.failShareData = false
+					rg.schemeRig.mu.Unlock()
+					if err == nil || strings.Contains(err.Error(), "context") {
+						s.Violate("C11", fmt.Sprintf("Sign with unusable share data did not return the preparation error (err=%v)", err), strings.Join(hist, "\n"))
 					}
-					<-g1.done
-					quiet("signExit", id, k1)
-					act("unregSync2", id, k2, true)
+					act("signExit", id, k1, true)
+				default:
+					g1.release <- true
+					g2 := rg.waitGate(k2, used)
+					if g2 == nil {
+						s.Violate("C12", "Sign callback did not reach the second synchronisation", strings.Join(hist, "\n"))
+						cancel()
+						continue
+					}
+					quiet("signPrepare", id, k1)
+					act("regSync2", id, k2, true)
+					switch path {
+					case 3: // caller gives up during the second synchronisation, which then fails
+						cancel()
+						await(done)
+						act("signExit", id, k1, true)
+						g2.release <- false
+						awaitCB(g1.done)
+						act("unregSync2", id, k2, true)
+					case 4: // caller gives up; the second synchronisation passes late
+						cancel()
+						await(done)
+						act("signExit", id, k1, true)
+						g2.release <- true
+						awaitCB(g1.done)
+						act("unregSync2", id, k2, true)
+					case 5: // backend fails
+						g2.release <- true
+						b, _, _ := waitBackend(signer, done)
+						b.release <- fmt.Errorf("scripted backend failure")
+						await(done)
+						awaitCB(g1.done)
+						quiet("signExit", id, k1)
+						act("unregSync2", id, k2, true)
+					default: // success
+						g2.release <- true
+						b, _, _ := waitBackend(signer, done)
+						b.release <- nil
+						if err := await(done); err != nil {
+							s.Violate("C12", "Sign failed on the success path: "+err.Error(), strings.Join(hist, "\n"))
+						}
+						awaitCB(g1.done)
+						quiet("signExit", id, k1)
+						act("unregSync2", id, k2, true)
+					}
 				}
-			}
-			cancel()
-			// late / foreign traffic for the finished session: must reach no backend and must not crash
-			before := len(rg.signers)
-			for _, mt := range []uint8{uint8(tss.MsgTypeSync), uint8(tss.MsgTypeMPC)} {
-				for _, tp := range [][]byte{k1, k2} {
-					rg.scheme.HandleMessage(&tss.IncMessage{Data: frame(1, 0, []byte{1}), Source: 2, MsgType: mt, Topic: tp})
+				cancel()
+				// late / foreign traffic for the finished session: must reach no backend and must not crash
+				before := len(rg.signers)
+				for _, mt := range []uint8{uint8(tss.MsgTypeSync), uint8(tss.MsgTypeMPC)} {
+					for _, tp := range [][]byte{k1, k2} {
+						rg.scheme.HandleMessage(&tss.IncMessage{Data: frame(1, 0, []byte{1}), Source: 2, MsgType: mt, Topic: tp})
+					}
 				}
-			}
-			emit("dispatch", fmt.Sprintf("orch dispatch %d", kn.id(k1)), "sync->- mpc->-")
-			for _, b := range rg.signers[:before] {
-				for _, e := range b.takeEvents() {
-					if e.kind == "onmsg" {
-						s.Violate("C12", "a message arriving after its session ended reached a protocol instance", strings.Join(hist, "\n"))
+				emit("dispatch", fmt.Sprintf("orch dispatch %d", kn.id(k1)), "sync->- mpc->-")
+				for _, b := range rg.signers[:before] {
+					for _, e := range b.takeEvents() {
+						if e.kind == "onmsg" {
+							s.Violate("C12", "a message arriving after its session ended reached a protocol instance", strings.Join(hist, "\n"))
+						}
 					}
 				}
 			}
-		}
-		// at the end of every history nothing may be left
-		if snap := rg.snapshot(kn); snap != "sync=- rbc=- cls=- dkg=0" {
-			s.Violate("C12", "handler tables are not empty after all sessions ended: "+snap, strings.Join(hist, "\n"))
-		}
+			// at the end of every history nothing may be left
+			if snap := rg.snapshot(kn); !aborted && snap != "sync=- rbc=- cls=- dkg=0" {
+				s.Violate("C12", "handler tables are not empty after all sessions ended: "+snap, strings.Join(hist, "\n"))
+			}
+		}()
 	}
 }
 
@@ -385,5 +440,11 @@ func orchDerivedTopicPair(s *out.Sink, members []uint16) {
 	}
 	g2.release <- false
 	cancel()
-	<-done
+	select {
+	case <-done:
+	case <-time.After(20 * time.Second):
+		s.Violate("C11", "Sign did not return within 20 s after its pre-signing synchronisation failed and its context was cancelled",
+			"Sign(\"pair-topic\"): first synchronisation passes, second synchronisation fails, context cancelled")
+		orchStop = true
+	}
 }
